@@ -260,7 +260,7 @@ def special_mutants(seed):
     if len(m.graph.node) >= 2 and len(m.graph.node[0].input) and len(m.graph.node[1].output):
         m.graph.node[0].input[0] = m.graph.node[1].output[0]  # two-node cycle
         out.append(("two_node_cycle", m))
-    for mk in (_tensor_two_payloads, _tensor_wrong_field, _tensor_dims_mismatch, _external_absurd, _graph_attr_self_copy, _missing_types, _duplicate_names_everywhere, _subgraph_io_names_outer, _function_body_shadowing, _names_collide_with_external):
+    for mk in (_tensor_two_payloads, _tensor_wrong_field, _tensor_dims_mismatch, _external_absurd, _graph_attr_self_copy, _missing_types, _duplicate_names_everywhere, _subgraph_io_names_outer, _function_body_shadowing, _names_collide_with_external, _value_info_corners):
         try:
             for label, mm in mk(seed):
                 out.append((label, mm))
@@ -375,6 +375,50 @@ def _graph_attr_self_copy(seed):
     a.graphs.add().CopyFrom(m.graph)
     m.graph.node[-1].attribute.add().CopyFrom(a)
     yield "graphs_attribute_two_copies_of_enclosing_graph", m
+
+
+def _value_info_corners(seed):
+    """Per value-info carrier (graph input / output / value_info entry, in every graph and function): the type
+    without its elem_type (shape kept), the type cleared, and a fresh name-only or shape-only entry for every
+    initializer, node output and graph input that has none."""
+    k = 0
+    graphs = list(_all_graphs(seed.graph))
+    for gi, g in enumerate(graphs):
+        for field in ("input", "output", "value_info"):
+            for ii, vi in enumerate(getattr(g, field)):
+                leaf = vi.type
+                if leaf.HasField("tensor_type") and leaf.tensor_type.HasField("shape"):
+                    m = gp._copy(seed)
+                    getattr(list(_all_graphs(m.graph))[gi], field)[ii].type.tensor_type.ClearField("elem_type")
+                    k += 1
+                    yield f"{field}_entry_shape_without_elem_type_{k}", m
+                if vi.HasField("type"):
+                    m = gp._copy(seed)
+                    getattr(list(_all_graphs(m.graph))[gi], field)[ii].ClearField("type")
+                    k += 1
+                    yield f"{field}_entry_type_cleared_{k}", m
+        have = {vi.name for vi in g.value_info}
+        names = [t.name for t in g.initializer] + [o for n in g.node for o in n.output if o] + [i.name for i in g.input]
+        for nm in names:
+            if nm in have:
+                continue
+            for how in ("name_only", "shape_only", "doc_only"):
+                m = gp._copy(seed)
+                vi = list(_all_graphs(m.graph))[gi].value_info.add()
+                vi.name = nm
+                if how == "shape_only":
+                    vi.type.tensor_type.shape.dim.add().dim_value = 3
+                elif how == "doc_only":
+                    vi.doc_string = "only a doc string"
+                k += 1
+                yield f"value_info_{how}_entry_added_{k}", m
+    for fi, f in enumerate(seed.functions):
+        for ii, vi in enumerate(f.value_info):
+            if vi.type.HasField("tensor_type"):
+                m = gp._copy(seed)
+                m.functions[fi].value_info[ii].type.tensor_type.ClearField("elem_type")
+                k += 1
+                yield f"function_value_info_without_elem_type_{k}", m
 
 
 def _missing_types(seed):
